@@ -13,8 +13,8 @@ pub struct C09;
 
 fn n_cases(tier: Tier) -> u64 {
     match tier {
-        Tier::Quick => 10_000,
-        Tier::Thorough => 300_000,
+        Tier::Quick => 100_000,
+        Tier::Thorough => 3_000_000,
     }
 }
 
@@ -98,7 +98,12 @@ impl Property for C09 {
             r.label("rec-instances>=2");
         }
         if ctx.want_rendered || r.failure.is_some() {
-            r.rendered = Some(json!({"sources": sources.to_json(), "expected": format!("{:?}", match exp { Expected::Document(_) => "document".to_owned(), other => format!("{other:?}") })}));
+            let actual = match catch(|| pipeline(&sources, None)) {
+                Ok(Outcome::Document { yaml, .. }) => yaml,
+                Ok(o) => o.verdict(),
+                Err(p) => p.signature(),
+            };
+            r.rendered = Some(json!({"sources": sources.to_json(), "facts": format!("{facts:?}"), "actual": actual, "expected": match exp { Expected::Document(d) => d, other => json!(format!("{other:?}")) }}));
         }
         r
     }
